@@ -3,7 +3,7 @@
 the wire.  Compared with Model/Send.v (ser_queue) and checked by an oracle."""
 import asyncio
 import struct
-from datetime import timedelta
+from datetime import datetime, timedelta, timezone, tzinfo
 
 from lib import core
 from lib.core import czl
@@ -18,6 +18,36 @@ TEXTS = ['hi', 'Hello €uro {x}', 'a' * 160, 'a' * 161, '€' * 81, 'x' * 254, 
          'mix € ж 😀', 'a' * 153 + '€' * 10, 'nul\x00inside', 'z' * 1000, 'half \ud83d']
 
 
+STDLIB_NAMES = ['hex', 'base64', 'rot13', 'zlib', 'bz2', 'uu', 'quopri', 'idna', 'punycode', 'undefined', 'cp1252', 'utf_8', 'utf_7', 'utf_16', 'mbcs',
+                'unicode_escape', 'raw_unicode_escape', 'big5', 'charmap']
+MODEL_NAMES = (None, 'gsm0338', 'ucs2', 'ascii', 'latin_1', 'klingon', 'octet_unspecified_I', 'gsm0338_packed')
+
+
+class NoOffset(tzinfo):
+    """a tzinfo that does not know its offset (utcoffset() may return None)"""
+
+    def utcoffset(self, dt):
+        return None
+
+    def dst(self, dt):
+        return None
+
+    def tzname(self, dt):
+        return 'unknown'
+
+
+def gen_time(rng, deltas):
+    k = rng.random()
+    if k < 0.5:
+        return None
+    if k < 0.75:
+        return rng.choice(deltas)
+    d = datetime(rng.choice([2026, 2031, 2099]), rng.randint(1, 12), rng.randint(1, 28), rng.randint(0, 23), rng.randint(0, 59), rng.randint(0, 59),
+                 rng.choice([0, 0, 700000, 999999]))
+    tz = rng.choice([None, timezone.utc, timezone(timedelta(hours=2)), timezone(timedelta(hours=-9, minutes=-30)), timezone(timedelta(minutes=7)), NoOffset()])
+    return d.replace(tzinfo=tz)
+
+
 def gen_submit(rng, i):
     """a SubmitSm the constructor accepts (or None), over the space the property names; the model's Unmodelled corner is avoided"""
     from aiosmpplib.protocol import SubmitSm
@@ -25,6 +55,9 @@ def gen_submit(rng, i):
     from aiosmpplib import state as st
     text = rng.choice(TEXTS)
     enc = rng.choice([None] * 10 + ['gsm0338', 'gsm0338', 'ucs2', 'ucs2', 'ascii', 'latin_1', 'klingon', 'octet_unspecified_I', 'gsm0338_packed'])
+    if rng.random() < 0.08:
+        # names Python has a codec for that SMPP has no data_coding for, incl. codecs that are not text encodings at all
+        enc = rng.choice(STDLIB_NAMES)
     handler = 'strict'
     if enc in (None, 'gsm0338', 'gsm0338_packed') and rng.random() < 0.25:
         handler = rng.choice(['replace', 'ignore', 'foo'])
@@ -37,8 +70,8 @@ def gen_submit(rng, i):
               esm_class=rng.choice([0, 0, 0, 0, 0x40, 0x40, 0x40, 0x43, 3, 255, -1, -64]), protocol_id=rng.choice([0, 0, 0, 0, 255, 127, -1, -255]),
               priority_flag=rng.choice([0, 0, 1, 3, -3]), registered_delivery=rng.choice([0, 1, 255]), replace_if_present_flag=rng.choice([0, 1]),
               sm_default_msg_id=rng.choice([0, 0, 0, 255, -200]), encoding=enc, auto_message_payload=auto, error_handling=handler,
-              schedule_delivery_time=rng.choice([None, None, None, timedelta(days=2), timedelta(weeks=64)]),
-              validity_period=rng.choice([None, None, None, timedelta(seconds=30), timedelta(days=441), timedelta(days=441, seconds=1)]),
+              schedule_delivery_time=gen_time(rng, [timedelta(days=2), timedelta(weeks=64)]),
+              validity_period=gen_time(rng, [timedelta(seconds=30), timedelta(days=441), timedelta(days=441, seconds=1)]),
               log_id=f'M{i}', extra_data='x')
     ops = []
     for _ in range(rng.choice([0, 0, 0, 1, 2])):
@@ -66,6 +99,8 @@ def gen_like(m0):
 
 def modelled(m, default):
     """inside the modelled fragment: a non-strict handler only where the model follows it (GSM codecs)"""
+    if m.encoding not in MODEL_NAMES:
+        return False
     if m.error_handling != 'strict':
         eff = m.encoding or default
         if eff not in ('gsm0338', 'gsm0338_packed'):
@@ -138,6 +173,62 @@ def run_session(msgs, default, fail_at=None):
             obs['start_done'] = t.done()
             obs['start_exc'] = t.exception() if t.done() and not t.cancelled() else None
             obs['sender_raised'] = list(ends)
+            obs['conns'] = len(smsc.conns)
+            obs['log'] = list(hook.log)
+            obs['wire'] = [p for c in smsc.conns for _t, w in c.log for p in vsess.split_pdus(w)[0]]
+            if not t.done():
+                t.cancel()
+                try:
+                    await t
+                except BaseException:  # noqa: BLE001
+                    pass
+        loop.run_until_complete(main())
+    finally:
+        undo()
+        vsess.finish(loop)
+    return obs
+
+
+def run_teardown(mk, default='gsm0338', lag=0.0):
+    """a message queued in the window after the session noticed that the connection is gone and before the idle sender is
+    ended: it must be transmitted (after the reconnect) or handed to send_error, never dropped silently"""
+    from aiosmpplib.state import SmppSessionState
+    loop = vsess.VLoop()
+    asyncio.set_event_loop(loop)
+    smsc = vsess.FakeSMSC(loop)
+    undo = vsess.install(loop, smsc)
+    obs = {}
+    try:
+        esme, hook = vsess.quiet_esme(enquire_link_interval=5000.0, socket_timeout=60.0, default_encoding=default)
+
+        def on_pdu(conn, pdu):
+            for p in vsess.split_pdus(pdu)[0]:
+                cmd, seq = struct.unpack('>I', p[4:8])[0], struct.unpack('>I', p[12:16])[0]
+                if cmd in (1, 2, 9):
+                    conn.send(vsess.bind_resp_for(p))
+                elif cmd == 4:
+                    conn.send(smppref.header(0x80000004, 0, seq, b'id%d\x00' % seq), delay=0.01)
+                    if conn.index == 0:
+                        conn.eof(delay=0.05)          # the SMSC goes away after the first message
+        smsc.on_pdu = on_pdu
+
+        async def main():
+            t = asyncio.create_task(esme.start())
+            await asyncio.sleep(1.0)
+            await esme.broker.enqueue(mk(0))
+            for _ in range(4000):
+                if esme.session_state == SmppSessionState.CLOSED and len(smsc.conns) == 1:
+                    break
+                await asyncio.sleep(0.001)
+            obs['closed_seen'] = esme.session_state == SmppSessionState.CLOSED
+            if lag:
+                await asyncio.sleep(lag)
+            await esme.broker.enqueue(mk(1))
+            await asyncio.sleep(20.0)
+            await esme.broker.enqueue(mk(2))
+            await asyncio.sleep(20.0)
+            obs['start_done'] = t.done()
+            obs['start_exc'] = t.exception() if t.done() and not t.cancelled() else None
             obs['conns'] = len(smsc.conns)
             obs['log'] = list(hook.log)
             obs['wire'] = [p for c in smsc.conns for _t, w in c.log for p in vsess.split_pdus(w)[0]]
@@ -258,6 +349,32 @@ def run(ctx):
             ctx.count('queue_outside_model')
         if i < 1:
             ctx.sample({'messages': [repr(m)[:200] for m in msgs], 'events': [(e[0], e[2]) for e in events]})
+    # ---- a message queued while the session is being torn down after a connection loss
+    from aiosmpplib.state import PhoneNumber as _PN
+    for lag in ([0.0, 0.0, 0.1, 0.3, 0.45, 0.6, 2.0] if ctx.thorough else [0.0, 0.2, 0.45]):
+        long_text = rng.random() < 0.4
+
+        def mk(j, long_text=long_text):
+            return SubmitSm(short_message=('seg ' * 100 if long_text and j == 1 else 'text%d' % j), source=_PN('38599'), destination=_PN('38591'),
+                            log_id=f'T{j}', auto_message_payload=not (long_text and j == 1))
+        obs = run_teardown(mk, lag=lag)
+        ctx.count('teardown_window_runs')
+        ctx.case(('teardown', lag, long_text), nontrivial=True)
+        rp = {'scenario': 'teardown_window', 'lag': lag, 'long_text': long_text}
+        if obs['start_done']:
+            ctx.violation(f'start() ended with {obs["start_exc"]!r} when a message was queued during the teardown after a connection loss', rp)
+            continue
+        if not obs.get('closed_seen'):
+            ctx.count('teardown_window_not_reached')
+        for j in range(3):
+            lid = f'T{j}'
+            sent = [e for e in obs['log'] if e[0] == 'sending' and isinstance(e[1], SubmitSm) and e[1].log_id == lid and e[2] in obs['wire']]
+            errs_ = [e for e in obs['log'] if e[0] == 'send_error' and e[1].log_id == lid]
+            if not sent and not errs_:
+                ctx.violation(f'message {lid}, queued {"%.2f s after" % lag if j == 1 else "outside"} the moment the session noticed the connection loss, '
+                              f'was neither transmitted nor handed to send_error', rp)
+            if len(errs_) > 1:
+                ctx.violation(f'message {lid} handed to send_error {len(errs_)} times', rp)
     if proved or not getattr(ctx, 'build_failing', None):
         bad, errs = core.run_cases('C06', 'queue', IMPORTS, 'fun p : enc * list smsg => ser_queue (fst p) 1 (-1) (snd p)', cases, shard=25)
         for fnm, out in errs:
@@ -275,6 +392,17 @@ def replay(ctx, path):
     import json
     from aiosmpplib.protocol import SubmitSm
     rp = json.load(open(path))
+    if rp.get('scenario') == 'teardown_window':
+        from aiosmpplib.state import PhoneNumber as _PN
+        lt = rp['long_text']
+        obs = run_teardown(lambda j: SubmitSm(short_message=('seg ' * 100 if lt and j == 1 else 'text%d' % j), source=_PN('38599'), destination=_PN('38591'), log_id=f'T{j}', auto_message_payload=not (lt and j == 1)), lag=rp['lag'])
+        bad = 0
+        for j in range(3):
+            n_s = sum(1 for e in obs['log'] if e[0] == 'sending' and isinstance(e[1], SubmitSm) and e[1].log_id == f'T{j}' and e[2] in obs['wire'])
+            n_e = sum(1 for e in obs['log'] if e[0] == 'send_error' and e[1].log_id == f'T{j}')
+            print(f'replay: T{j}: {n_s} PDU(s) on the wire, {n_e} send_error call(s)')
+            bad += (n_s == 0 and n_e == 0) or n_e > 1
+        return 1 if bad or obs['start_done'] else 0
     if rp.get('queue_pickle'):
         msgs = core.unpickle_b64(rp['queue_pickle'])
         obs = run_session(msgs, rp.get('default', 'gsm0338'), fail_at=rp.get('transport_failure_at_submit_sm_write'))
